@@ -124,8 +124,21 @@ void pbt_generate(Rng& r, int size, Case& c) {
   static const long mins[] = {0, 1, 2}, maxs[] = {3, 4, 5}, queues[] = {1, 2, 4, 256};
   c.params["clients"] = nc;
   c.params["min"] = mins[r.below(3)]; c.params["max"] = maxs[r.below(3)]; c.params["queue"] = queues[r.below(4)];
-  c.params["globalpool"] = r.chance(15) ? 1 : 0;
+  c.params["globalpool"] = r.chance(25) ? 1 : 0;
   c.params["strategy"] = (long)r.below(4); c.params["sched"] = (long)r.below(1000000); c.params["nsched"] = 6;
+  if (r.chance(20)) {
+    // scenario mode: grow the pool (every client starts all its futures with long bodies), let it idle past the retirement
+    // time, then have all clients start again at the same moment; several rounds (exercises growing, retiring and re-growing)
+    nc = 3; c.params["clients"] = 3; c.params["min"] = (long)r.below(2); c.params["max"] = 5; if (r.chance(50)) c.params["queue"] = 256;
+    int rounds = 2 + (int)r.below(4);
+    for (int rd = 0; rd < rounds; ++rd) {
+      for (int f = 0; f < NF; ++f) for (int cl = 0; cl < 3; ++cl) if (rd == 0 || r.chance(70)) c.add("op", cl, 0, f, (long)(3 * r.below(300) + 2));   // start, 2 decision points inside
+      for (int cl = 0; cl < 3; ++cl) for (int f = 0; f < NF; ++f) c.add("op", cl, 2, f, 0);                                                          // join
+      for (int cl = 0; cl < 3; ++cl) c.add("op", cl, 6, 0, 4 * (long)r.below(100));                                                                   // sleep 2500 ms
+    }
+    for (int cl = 0; cl < 3; ++cl) c.add("op", cl, 0, (long)r.below(NF), (long)r.below(1000));
+    return;
+  }
   int n = 2 + (int)r.below((uint64_t)size + 1);
   static const int w[] = {28, 14, 16, 10, 8, 8, 4, 4};
   for (int k = 0; k < n; ++k) c.add("op", (long)r.below((uint64_t)nc), (long)r.weighted(w, 8), (long)r.below(NF), (long)r.below(1000));
@@ -142,7 +155,7 @@ void pbt_run(const Case& cs, Ctx& ctx) {
   int starts = 0; bool longSleep = false;
   for (const Op& op : cs.ops) if (op.name == "op") { progs[(size_t)(((op.a[0] % nc) + nc) % nc)].push_back(&op); int what = (int)(((op.a[1] % 8) + 8) % 8); if (what <= 1) ++starts; if (what == 6 && op.a[3] % 4 == 0) longSleep = true; }
   if (nc >= 2) ctx.label("clients>=2"); if (pq <= 2 && !globalPool) ctx.label("small_queue"); if (starts >= 4) ctx.label("starts>=4");
-  if (longSleep && starts >= 3) ctx.label("worker_retirement_window"); if (globalPool) ctx.label("lazy_global_pool");
+  if (longSleep && starts >= 3) ctx.label("worker_retirement_window"); if (longSleep && starts >= 12 && nc == 3) ctx.label("grow_idle_regrow_scenario"); if (globalPool) ctx.label("lazy_global_pool");
   for (long s = 0; s < nsched; ++s) {
     vsched::Config cfg; cfg.seed = (uint64_t)cs.param("sched", 1) * 1000003ull + (uint64_t)s; cfg.strategy = (int)((cs.param("strategy", 0) + s) % 4); cfg.stepBound = 400000;
     auto bodyFn = [&]() {
